@@ -148,6 +148,12 @@ Definition run_item (w : world) (it : sx) : world * sx :=
   | L [A 48; A scope; A a] => (w, L [A 0; sx_zs (aggregate w scope a)])
   | L [A 47; ns] =>
     (w, L [A 0; L (map (fun n => L [A n; sx_opt (ir_of w n); sx_opt (module_of w n); sx_opt (section_of w n)]) (un_zs ns))])
+  | L [A 29; A bi; A v] =>
+    (* bi.initialized_size = v: the stored bytes are ByteStore.v's concern; for the object graph the assignment is a size
+       assignment through the indexed attribute when v exceeds the size (ByteStore.set_init), and nothing otherwise *)
+    if nsize (getn w bi) <? v
+    then match step w (OAttrSize bi v) with Ok w' => (w', L [A 0]) | Err e => (w, sx_err e) end
+    else (w, L [A 0])
   | _ =>
     match op_of_sx it with
     | Some o => match step w o with Ok w' => (w', L [A 0]) | Err e => (w, sx_err e) end
